@@ -77,7 +77,9 @@ class ValMap:
         if kd in BOUNDS:
             r = j if BOUNDS[kd][0] < 0 else j + 1000
         elif kd == "F":
-            r = float(j) + 0.5
+            # exactly representable in float32 and CLOSE to one another (2^-30 apart): an overwrite with the
+            # neighbouring value is a change, however small
+            r = (j + 3) * 2.0 ** -30
         elif kd == "O":
             r = "v%d" % j
         elif kd == "s":
